@@ -12,17 +12,25 @@ CONFIG = dict(
           "guard interleavings: three prefixes (2 types x 1..3 scopes, with shadowing) followed by every sequence of "
           "L requests (quick: L=3 over a 25-request alphabet and L=4 over 11; thorough: L=4 / L=5) drawn from try_borrow, "
           "try_borrow_mut, borrow, borrow_mut, parent() borrows, drop/read/write of guards 0..2, try_get_value, "
-          "get_value, set_value and illegal &mut requests, each followed by a lock dump; (2) multi-borrow: every "
+          "get_value, set_value and illegal &mut requests, each followed by a lock dump; (1b) the four *_value accessors "
+          "(try_borrow_value, try_borrow_value_mut, borrow_value, borrow_value_mut, also through parent()) as guard sources "
+          "mixed with the plain accessors: every sequence of 3 (thorough: 4) requests over a 15-request alphabet after the "
+          "same three prefixes (site vguards); (2) multi-borrow: every "
           "tuple of arity 2..8 over a 2-type universe (508) and of arity 2..4 over 4 types (336), each with every "
           "subset of the universe present, plus 22 fixed tuples of arity 5..8 over 8 types (distinct permutations and "
           "repetitions at several positions) with all / all-but-one / random subsets present, flat and split over two "
           "scopes; (3) every nesting of holding / with_inner_state of depth 1..3 with ok/err at each level and a body "
           "operation at each level (re-insert of the held type, removal, none), under three scope layouts, followed by "
-          "probe holdings; (4) seeded random machine histories of length 20..80 (600 quick / 20000 thorough). "
+          "probe holdings (thorough: also guarded value accesses gset/gget as body operations); (4) seeded random machine "
+          "histories of length 20..80 (1000 quick / 20000 thorough) over chains of 1..6 scopes with parent() distances "
+          "0..4, plain and *_value guards, guarded value accesses inside bodies. "
           "Non-trivial: at least one guard request or holding/inner/multi statement; distinct = distinct canonical input."),
-    nontrivial=lambda inp: re.search(r"\((bor|bormut|borp|bormutp|parbor|parbormut) |\(hold |\(inner |\(multi ", inp) is not None,
+    nontrivial=lambda inp: re.search(r"\((bor|bormut|borp|bormutp|parbor|parbormut|borv|borvmut|borvp|borvmutp|parborv|parborvmut) "
+                                     r"|\(hold |\(inner |\(multi ", inp) is not None,
     trusted_base=[
         "RefCell's implementation (the flag automaton is modelled: shared iff no writer, exclusive iff no writer and no reader)",
+        "Ref::map / RefMut::map keep the flag of the guard they are mapped from (the *_value accessors are modelled as "
+        "the same transitions as try_borrow / try_borrow_mut; checked against the code on every generated history)",
         "safe Rust cannot leak a guard past the registry except by mem::forget (not modelled); lifetimes / the borrow "
         "checker decide which requests compile - the harness answers 'illegal' for &mut requests while guards live",
         "Marker<T> cannot be named by a client: its presence is observed only through later holdings",
@@ -33,16 +41,31 @@ CONFIG = dict(
 CONFIG.update(
     level_text=("Lean 4 theorems over the code-shaped model (RefCell flags in the cells, ghost list of live guards, Marker keys): "
                 "flag_inv (every reachable state: each flag equals the live guards on its cell, at most one writer, never "
-                "writer+reader), grant_iff, refused_never_granted (state unchanged, error kind), panicking accessors, "
-                "noninterference across types and scopes, release_restores, write_then_read, multi_ok_iff / error kind / "
+                "writer+reader), grant_iff / refused_never_granted (state unchanged, error kind) for requests at the current "
+                "registry and grant_iff_parent / refused_never_granted_parent for requests through parent() at any distance, "
+                "panicking accessors, no_panic_from_fallible (no other request is ever answered by a panic), "
+                "value_access_next_to_guards / _absent / _parent (try_get_value, get_value, set_value, parent().try_get_value "
+                "next to ANY live guard set: granted iff compatible, refused without writing otherwise), noninterference across "
+                "types and scopes, release_restores, write_then_read and write_then_value_read, multi_ok_iff / error kind / "
                 "distinct cells for key lists of any length, holding_restores_partial for every body that does not nest a "
-                "holding of the same type (ok and err bodies, nested holdings of other types, inner scopes), and a proved "
-                "counterexample for the nested same-type case (recorded finding). The model is tied to /repo by running the "
-                "real State with live guards, all multi-borrow tuples and all helper nestings, diffing against the compiled "
-                "model (K) and against the abstract machine 'stack of maps + guard set, many readers xor one writer, holding "
-                "restores into the scope it took from' (O)."),
-    level_note=("Trusted: Lean kernel; RefCell represented by its flag automaton; harness + driver printing. The theorems are "
-                "about the model; agreement with the code is checked on the generated histories only. Not verified: RefCell, "
-                "that safe Rust cannot leak a guard past the registry, the memory model (no Miri run). partial: nested holding "
-                "of the same type is outside holding_restores_partial and is a recorded finding."),
+                "holding of the same type (ok and err bodies, nested holdings of other types, inner scopes), and proved "
+                "counterexamples for both recorded symptoms of the nested same-type case (recorded finding). In addition a "
+                "PROPOSED repair of holding (level of the source scope counted from the root instead of a per-type marker; "
+                "Model/BorrowRepair.lean, patch in known_findings.d/, NOT applied to the code) is proved to be the abstract "
+                "machine for EVERY body incl. nested same-type holdings (repaired_holding_refines, "
+                "repaired_holding_restores_all_bodies, repaired_holding_on_witnesses). The model is tied to /repo by running the "
+                "real State with live guards from all eight borrow accessors, all multi-borrow tuples and all helper nestings, "
+                "diffing against the compiled model (K) and against the abstract machine 'stack of maps + guard set, many "
+                "readers xor one writer, holding restores into the scope it took from' (O)."),
+    level_note=("Trusted: Lean kernel; RefCell represented by its flag automaton; Ref::map/RefMut::map keep the flag; harness + "
+                "driver printing. The theorems are about the model; agreement with the code is checked on the generated "
+                "histories only. There is no theorem that the code-shaped machine equals the abstract machine on ALL histories "
+                "(the clause theorems cover its content piecewise; for the repaired holding the statement part is proved). Not "
+                "verified: RefCell, that safe Rust cannot leak a guard past the registry (mem::forget leaves a cell locked; not "
+                "modelled), the memory model (no Miri run), the typed State wrappers (populations, random_mut, log, "
+                "best_individual: one-line calls of borrow/borrow_mut, not exercised here). partial: nested holding of the same "
+                "type is outside holding_restores_partial and is a recorded finding. Observed, outside the statement (a body "
+                "that 'fails' is read as returning Err): a body that PANICS unwinds through holding, the held state is dropped "
+                "and the marker stays (probe: contains::<T>() = false afterwards); the repair theorems are about a proposal, "
+                "not about /repo."),
 )
